@@ -518,9 +518,29 @@ class VArr:
     def new(self, term, dtype):
         return VArr(z3.simplify(term), dtype, self.space)
 
-    def copy(self):
+    def copy(self, order="C"):
+        # the values by index are the same for every order; "K"/"A" only keep the memory layout of the source
+        if order not in ("C", "F", "K", "A"):
+            raise Unsupported("copy order")
         cur().event("arr-copy", self.buf)
         return VArr(self.term, self.dtype_name, self.space)
+
+    def _flat(self, order, what):
+        """ravel / flatten / reshape(-1): index-order flattenings ("C", "F") re-index every array of one shape in the same way, so
+        arrays stay aligned voxel by voxel; memory-order flattenings ("K", "A") re-index by the argument's own strides: two arrays of
+        one shape are then aligned only if they happen to share a memory layout -- a contract violation for layout-independent code."""
+        if order not in ("C", "F", "K", "A"):
+            raise Unsupported("flatten order")
+        if order in ("K", "A"):
+            cur().oblige(f"layout-independence({what}(order={order!r}) orders the elements by the memory layout of its argument)", z3.BoolVal(False), structural=True)
+        cur().event("arr-copy", self.buf)
+        return VArr(self.term, self.dtype_name, self.space)
+
+    def ravel(self, order="C"):
+        return self._flat(order, "ravel")
+
+    def flatten(self, order="C"):
+        return self._flat(order, "flatten")
 
     def astype(self, dt, **k):
         dt = _dtype_name(dt)
